@@ -10,9 +10,14 @@ class C09(Spec):
         "C09.getV_correct_partial", "C09.getV_correct_full_false", "C09.getV_correct_sepfree_false",
         "C09.delTop_restores", "C09.delTop_restores_state", "C09.applyAdd_wf", "C09.fresh_of_below", "C09.history_wf",
         "C09.trash_keeps_newest_partial", "C09.trash_keeps_newest_full_false",
+        "C09.trash_keeps_newest_nocover", "C09.prefixFree_noForeignCover", "C09.trash_collects_covered_by_top",
+        "C09.iadd_keeps_last", "C09.idel_restores_last_partial",
+        "C09.idel_restores_last_full_false_version0", "C09.idel_restores_last_full_false_foreign",
     )
-    partial = ("C09.getV_correct_partial", "C09.trash_keeps_newest_partial")
-    refuted = ("C09.getV_correct_full_false", "C09.getV_correct_sepfree_false", "C09.trash_keeps_newest_full_false")
+    partial = ("C09.getV_correct_partial", "C09.trash_keeps_newest_partial", "C09.trash_keeps_newest_nocover",
+               "C09.idel_restores_last_partial")
+    refuted = ("C09.getV_correct_full_false", "C09.getV_correct_sepfree_false", "C09.trash_keeps_newest_full_false",
+               "C09.idel_restores_last_full_false_version0", "C09.idel_restores_last_full_false_foreign")
     level_text = ("Lean theorems about a byte-exact model of the MVCC data region (GetKey/pad, reverse prefix seek of GetV, "
                   "AddMVCC/DelMVCC, Trash/cutVersion/getVersion): 20-digit padding is an order isomorphism; removing the top "
                   "version restores the data region and hence every read for ALL key shapes; GetV returns the most recent write "
